@@ -1,5 +1,6 @@
 #!/bin/sh
 # usage: benign2.sh <patch> <id...> : benigntest on the scratch worktree /tmp/wt/chk1
+# (create the scratch worktree first: git -C /repo worktree add --detach /tmp/wt/chk1 HEAD; remove it afterwards with git -C /repo worktree remove --force /tmp/wt/chk1)
 cd /verif; . ./env.sh; R=/tmp/wt/chk1
 p=$1; shift
 git -C $R checkout -q -- . ; git -C $R clean -fdq
